@@ -134,4 +134,208 @@ theorem concInv_run (hooks : List Hook) (n : Nat) (e0 : Env) (s : Sys) (sched : 
   | nil => exact h
   | cons i rest ih => exact ih _ (concInv_move hooks n e0 s i h)
 
+/-! ### while one caller is inside, the newcomers wait -/
+
+/-- caller `j` is inside the mutex and every other caller has not been inside yet -/
+def HeldBy (s : Sys) (j : Nat) : Prop :=
+  (∃ cj, s.callers[j]? = some cj ∧ cj.isHolding = true) ∧
+  ∀ (i : Nat) (ci : Caller), i ≠ j → s.callers[i]? = some ci → ci.isNew = true
+
+theorem not_free_of_holding (s : Sys) (j : Nat) (cj : Caller) (hj : s.callers[j]? = some cj)
+    (hh : cj.isHolding = true) : s.free = false := by
+  cases hf : s.free with
+  | false => rfl
+  | true => rw [(free_iff s).mp hf j cj hj] at hh; cases hh
+
+/-- One move of a caller other than the holder: the environment and the log are untouched, the
+    holder still holds and the others are still newcomers (none has run, none has returned). -/
+theorem heldBy_move (hooks : List Hook) (n : Nat) (s : Sys) (j i : Nat) (hij : i ≠ j) (h : HeldBy s j) :
+    HeldBy (move hooks n s i) j ∧ (move hooks n s i).env = s.env ∧ (move hooks n s i).log = s.log := by
+  obtain ⟨⟨cj, hj, hh⟩, hnew⟩ := h
+  unfold move
+  split
+  · exact ⟨⟨⟨cj, hj, hh⟩, hnew⟩, rfl, rfl⟩
+  · rename_i c hc
+    have hn := hnew i c hij hc
+    have hfree := not_free_of_holding s j cj hj hh
+    split
+    · -- arrive: the look-up
+      refine ⟨⟨⟨cj, ?_, hh⟩, ?_⟩, rfl, rfl⟩
+      · simp only [List.getElem?_set_ne hij]; exact hj
+      · intro k ck hkj hk
+        rcases getElem?_set_cases _ _ _ _ _ hk with ⟨_, rfl⟩ | ⟨_, hk'⟩
+        · rfl
+        · exact hnew k ck hkj hk'
+    · -- start: the mutex is busy
+      simp only [hfree]
+      exact ⟨⟨⟨cj, hj, hh⟩, hnew⟩, rfl, rfl⟩
+    all_goals (rename_i hpc; simp [Caller.isNew, hpc] at hn)
+
+theorem heldBy_run (hooks : List Hook) (n : Nat) (s : Sys) (j : Nat) (sched : List Nat)
+    (hs : ∀ i ∈ sched, i ≠ j) (h : HeldBy s j) :
+    HeldBy (runSched hooks n s sched) j ∧ (runSched hooks n s sched).env = s.env ∧
+      (runSched hooks n s sched).log = s.log := by
+  induction sched generalizing s with
+  | nil => exact ⟨h, rfl, rfl⟩
+  | cons i rest ih =>
+    have h1 := heldBy_move hooks n s j i (hs i (List.mem_cons_self ..)) h
+    have h2 := ih (move hooks n s i) (fun k hk => hs k (List.mem_cons_of_mem _ hk)) h1.1
+    exact ⟨h2.1, h2.2.1.trans h1.2.1, h2.2.2.trans h1.2.2⟩
+
+/-! ### the forced write is made by a caller that has been through its own critical sections -/
+
+theorem forcedJustified_append (seen xs : List LogEntry) (x : LogEntry) :
+    forcedJustified seen (xs ++ [x]) =
+      (forcedJustified seen xs && (!x.isForce || wentThrough (seen ++ xs) x.caller)) := by
+  induction xs generalizing seen with
+  | nil => simp [forcedJustified]
+  | cons y ys ih =>
+    simp only [List.cons_append, forcedJustified, ih, List.append_assoc, List.nil_append, Bool.and_assoc]
+
+theorem wentThrough_mono (log : List LogEntry) (x : LogEntry) (i : Nat) (h : wentThrough log i = true) :
+    wentThrough (log ++ [x]) i = true := by
+  simp only [wentThrough, Bool.and_eq_true, List.any_append] at h ⊢
+  exact ⟨by simp [h.1], by simp [h.2]⟩
+
+theorem anyOwn_mono (log : List LogEntry) (x : LogEntry) (i : Nat) (h : log.any (·.failedOwn i) = true) :
+    (log ++ [x]).any (·.failedOwn i) = true := by
+  simp [List.any_append, h]
+
+/-- what the log holds about a caller, given where it is in its program -/
+def pcWitness (log : List LogEntry) (i : Nat) : Pc → Prop
+  | .holding (some .goError) => log.any (·.failedOwn i) = true
+  | .between .goError => log.any (·.failedOwn i) = true
+  | .holding (some .check) => wentThrough log i = true
+  | .between .check => wentThrough log i = true
+  | .between .force => wentThrough log i = true
+  | .holding (some .force) => wentThrough log i = true    -- never reached
+  | _ => True
+
+theorem pcWitness_mono (log : List LogEntry) (x : LogEntry) (i : Nat) (pc : Pc) (h : pcWitness log i pc) :
+    pcWitness (log ++ [x]) i pc := by
+  unfold pcWitness at h ⊢
+  split <;> simp_all [wentThrough_mono]
+
+structure ForceInv (s : Sys) : Prop where
+  just : forcedJustified [] s.log = true
+  wit : ∀ (i : Nat) (c : Caller), s.callers[i]? = some c → pcWitness s.log i c.pc
+
+theorem forceInv_init (env : Env) (reqs : List Req) : ForceInv (initSys env reqs) := by
+  refine ⟨rfl, ?_⟩
+  intro i c hi
+  simp only [initSys, List.getElem?_map] at hi
+  cases h : reqs[i]? with
+  | none => rw [h] at hi; cases hi
+  | some q => rw [h] at hi; simp at hi; subst hi; trivial
+
+theorem forceInv_move (hooks : List Hook) (n : Nat) (s : Sys) (i : Nat) (h : ForceInv s) :
+    ForceInv (move hooks n s i) := by
+  unfold move
+  split
+  · exact h
+  · rename_i c hc
+    have hw := h.wit i c hc
+    split
+    · -- arrive
+      refine ⟨h.just, ?_⟩
+      intro k ck hk
+      rcases getElem?_set_cases _ _ _ _ _ hk with ⟨_, rfl⟩ | ⟨_, hk'⟩
+      · trivial
+      · exact h.wit k ck hk'
+    · -- start
+      split
+      · refine ⟨?_, ?_⟩
+        · simp only [forcedJustified_append, h.just, LogEntry.isForce, Bool.true_and, Bool.not_false, Bool.true_or]
+        · intro k ck hk
+          rcases getElem?_set_cases _ _ _ _ _ hk with ⟨hki, rfl⟩ | ⟨_, hk'⟩
+          · subst hki
+            simp only
+            cases hq : c.req with
+            | try_ e b r => trivial
+            | teardown f r1 r2 => trivial
+            | control e b r =>
+              simp only
+              split
+              · trivial
+              · rename_i hres
+                simp only [pcWitness, List.any_append, List.any_cons, List.any_nil, LogEntry.failedOwn, Bool.or_false]
+                simp only [Bool.or_eq_true, not_or, Bool.not_eq_true] at hres
+                simp [hres.1]
+          · exact pcWitness_mono _ _ _ _ (h.wit k ck hk')
+      · exact h
+    · -- holding: release
+      rename_i next hpc
+      refine ⟨h.just, ?_⟩
+      intro k ck hk
+      rcases getElem?_set_cases _ _ _ _ _ hk with ⟨hki, rfl⟩ | ⟨_, hk'⟩
+      · subst hki
+        rw [hpc] at hw
+        cases next with
+        | none => trivial
+        | some p => cases p <;> first | trivial | exact hw
+      · exact h.wit k ck hk'
+    · -- GO_ERROR fallback
+      rename_i hpc
+      rw [hpc] at hw
+      split
+      · refine ⟨?_, ?_⟩
+        · simp only [forcedJustified_append, h.just, LogEntry.isForce, Bool.true_and, Bool.not_false, Bool.true_or]
+        · intro k ck hk
+          rcases getElem?_set_cases _ _ _ _ _ hk with ⟨hki, rfl⟩ | ⟨_, hk'⟩
+          · subst hki
+            simp only
+            split
+            · trivial
+            · rename_i hres
+              simp only [pcWitness, wentThrough, Bool.and_eq_true]
+              refine ⟨anyOwn_mono _ _ _ hw, ?_⟩
+              simp only [List.any_append, List.any_cons, List.any_nil, LogEntry.failedGoError, Bool.or_false]
+              simp only [Bool.not_eq_true] at hres
+              simp [hres]
+          · exact pcWitness_mono _ _ _ _ (h.wit k ck hk')
+      · exact h
+    · -- check
+      rename_i hpc
+      rw [hpc] at hw
+      refine ⟨h.just, ?_⟩
+      intro k ck hk
+      rcases getElem?_set_cases _ _ _ _ _ hk with ⟨hki, rfl⟩ | ⟨_, hk'⟩
+      · subst hki
+        simp only
+        split
+        · trivial
+        · exact hw
+      · exact h.wit k ck hk'
+    · -- force
+      rename_i hpc
+      rw [hpc] at hw
+      refine ⟨?_, ?_⟩
+      · simp only [forcedJustified_append, h.just, List.nil_append, Bool.true_and, Bool.or_eq_true]
+        exact Or.inr hw
+      · intro k ck hk
+        rcases getElem?_set_cases _ _ _ _ _ hk with ⟨hki, rfl⟩ | ⟨_, hk'⟩
+        · trivial
+        · exact pcWitness_mono _ _ _ _ (h.wit k ck hk')
+    · exact h
+    · exact h
+
+theorem forceInv_run (hooks : List Hook) (n : Nat) (s : Sys) (sched : List Nat) (h : ForceInv s) :
+    ForceInv (runSched hooks n s sched) := by
+  induction sched generalizing s with
+  | nil => exact h
+  | cons i rest ih => exact ih _ (forceInv_move hooks n s i h)
+
+/-- reading `forcedJustified` at one entry -/
+theorem forcedJustified_at (seen pre post : List LogEntry) (x : LogEntry)
+    (h : forcedJustified seen (pre ++ x :: post) = true) (hx : x.isForce = true) :
+    wentThrough (seen ++ pre) x.caller = true := by
+  induction pre generalizing seen with
+  | nil =>
+    simp only [List.nil_append, forcedJustified, hx, Bool.not_true, Bool.false_or, Bool.and_eq_true] at h
+    simpa using h.1
+  | cons y ys ih =>
+    simp only [List.cons_append, forcedJustified, Bool.and_eq_true] at h
+    have := ih (seen ++ [y]) h.2
+    simpa [List.append_assoc] using this
+
 end EnvM
